@@ -27,6 +27,9 @@ func perms(n int) [][]int {
 }
 
 // start -> X(xor merge) -> F(par 1->N) -> T_i -> G(par N->M) -> U_j -> J(par M->1) -> L -> D(xor) -(again)-> X | end
+// c03CondOut: put (false) conditions on the outgoing flows of the gateway under test
+var c03CondOut bool
+
 func c03Prog(N, M int) *Prog {
 	p := &Prog{}
 	p.Node("start", "start")
@@ -51,7 +54,13 @@ func c03Prog(N, M int) *Prog {
 		p.Flow(fmt.Sprintf("T%d", i), "G", "")
 	}
 	for j := 0; j < M; j++ {
-		p.Flow("G", fmt.Sprintf("U%d", j), "")
+		// a parallel gateway does not evaluate conditions: every other outgoing flow carries one that is false
+		// ("again" is false whenever the gateway fires for the last time, and a constant false otherwise)
+		cond := ""
+		if c03CondOut && j%2 == 1 {
+			cond = "1 == 2"
+		}
+		p.Flow("G", fmt.Sprintf("U%d", j), cond)
 		p.Flow(fmt.Sprintf("U%d", j), "J", "")
 	}
 	p.Flow("J", "L", "")
@@ -236,14 +245,17 @@ func runC03(env *Env) {
 					for a := 1; a < K; a++ {
 						orders = append(orders, ps[rng.Intn(len(ps))])
 					}
-					env.Current(fmt.Sprintf("engine N=%d M=%d answer-orders=%v", N, M, orders))
+					c03CondOut = rep.Evaluations%2 == 1 // every other run: false conditions on the gateway's outgoing flows
+					env.Current(fmt.Sprintf("engine N=%d M=%d answer-orders=%v conditions-on-outgoing=%v", N, M, orders, c03CondOut))
 					r := c03Run(N, M, orders)
+					condNote := c03CondOut
+					c03CondOut = false
 					rep.Evaluations++
 					rep.Count(fmt.Sprintf("engine_N%d_M%d_K%d", N, M, K))
 					if N >= 2 || M >= 2 {
 						rep.Nontrivial++
 					}
-					cs := fmt.Sprintf("engine N=%d M=%d answer-orders=%v", N, M, orders)
+					cs := fmt.Sprintf("engine N=%d M=%d answer-orders=%v conditions-on-outgoing=%v", N, M, orders, condNote)
 					if r.stuck != "" {
 						rep.Violate("C03-stuck", cs, r.stuck+" ; log: "+logString(r.log))
 					}
